@@ -37,6 +37,68 @@ def judge(ctx, f, a, origin):
                        obligation="Hoist.hoistAll (Lean; C10.hoistAll_topo/perm) = FlowGraph.__hoist, hypotheses Topo/Closed"), found)
 
 
+def g10merge(rng):
+    """metrics specification: one tensor partitioned (a shape split, optionally a flatten of the lower level with another rank) and
+    bound to a hardware merger whose init-ranks / final-ranks name the PARTITIONED ranks: the extra swizzle into the merger's
+    initial order can only run after the partitioning statements"""
+    K, M = rng.choice([("K", "M"), ("J", "N")])
+    flat = rng.random() < 0.6
+    parts = {K: ["uniform_shape(%d)" % rng.randint(2, 5)]}
+    if flat:
+        parts["(%s, %s0)" % (M, K)] = ["flatten()"]
+        ranks = [M + K + "0", K + "1"]
+    else:
+        ranks = [K + "1", K + "0", M]
+    loop = list(ranks)
+    rng.shuffle(loop)
+    init = list(ranks)
+    while init == loop and len(ranks) > 1:
+        rng.shuffle(init)
+    fmt = {"rank-order": list(loop)}
+    for r in loop:
+        fmt[r] = {"format": "C", "pbits": 64}
+    return {"einsum": {"declaration": {"Z": [], "A": [K, M]}, "expressions": ["Z[] = A[%s, %s]" % (K.lower(), M.lower())]},
+            "mapping": {"partitioning": {"Z": parts}, "loop-order": {"Z": loop}, "spacetime": {"Z": {"space": [], "time": list(loop)}}},
+            "architecture": {"accel": [{"name": "level0", "attributes": {"clock_frequency": 10 ** 9},
+                                        "local": [{"name": "Merger", "class": "Merger", "attributes": {"inputs": 16, "comparator_radix": 16}}]}]},
+            "bindings": {"Z": [{"config": "accel", "prefix": "tmp/Z"}, {"component": "Merger", "bindings": [{"tensor": "A", "init-ranks": init, "final-ranks": list(loop)}]}]},
+            "format": {"A": {"default": fmt}, "Z": {"default": {"rank-order": []}}}}
+
+
+def rank_availability(f, d):
+    """independent reading of one class of data dependences: a statement that permutes / reads ranks of a tensor which only exist
+    after a partitioning statement of that tensor must have that statement among its ancestors in the graph"""
+    import re
+    import networkx as nx
+    g = nx.DiGraph()
+    g.add_nodes_from(range(len(f["nodes"])))
+    g.add_edges_from((a, b) for a, b in f["edges"])
+    decl = (d.get("einsum") or {}).get("declaration") or {}
+    parts = []
+    for i, n in enumerate(f["nodes"]):
+        m = re.fullmatch(r"\(PartNode, (\w+), \((.*)\)\)", n)
+        if m:
+            key = [x.strip().strip("'") for x in m.group(2).split(",") if x.strip()]
+            parts.append((i, m.group(1), key))
+    probs = []
+    for i, n in enumerate(f["nodes"]):
+        m = re.fullmatch(r"\(SwizzleNode, (\w+), \[(.*)\], ([\w-]+)\)", n)
+        if not m:
+            continue
+        t = m.group(1)
+        ranks = [x.strip().strip("'") for x in m.group(2).split(",") if x.strip()]
+        for r in ranks:
+            if r in decl.get(t, []):
+                continue
+            for pi, pt, key in parts:
+                if pt != t:
+                    continue
+                makes = (r == "".join(key)) if len(key) > 1 else bool(re.fullmatch(re.escape(key[0]) + r"\d+I?", r))
+                if makes and not nx.has_path(g, pi, i):
+                    probs.append("%s uses rank %s, which %s creates, but does not depend on it" % (n, r, f["nodes"][pi]))
+    return probs
+
+
 def run(ctx):
     ctx.rule = ("flow graphs of corpus + generated G1-G5 (plain) and G7/corpus (metrics) specifications, exported before/after hoisting through the public IR; "
                 "plus random DAGs with a loop chain and a random topological order driven through the real __hoist; non-trivial = at least one loop and one hoistable node; distinct = distinct (edges, order)")
@@ -62,6 +124,26 @@ def run(ctx):
             ctx.stat("graphs_" + r["mode"]); ctx.stat("hoisting_moved_something" if moved else "nothing_to_hoist")
             reqs.append(lean_req(f)); metas.append((f, "%s/%s" % (r["gen"], r["mode"]), r))
     rng = random.Random(ctx.seed * 31 + 5)
+    # merger bindings on partitioned ranks: flow graphs exported directly (independently of the rest of the translation)
+    for i in range(12 * k):
+        d = g10merge(rng)
+        try:
+            fs = flow.flow_info(d, "metrics")
+        except ValueError:
+            ctx.stat("g10merge_rejected"); continue
+        for f in fs:
+            ctx.case([f["edges"], f["sorted0"]], nontrivial=bool(f["loops"]))
+            ctx.stat("graphs_g10merge")
+            reqs.append(lean_req(f)); metas.append((f, "g10merge/metrics", dict(yaml=d, mode="metrics", gen="g10merge")))
+    for f, origin, r in list(metas):
+        if r is None:
+            continue
+        probs = rank_availability(f, r["yaml"])
+        ctx.ob(not probs); ctx.stat("rank_availability_checked")
+        if probs:
+            pos = {n: i for i, n in enumerate(f["sorted1"])}
+            ctx.violation(dict(kind="missing-dependence", origin=dict(origin=origin, yaml=r["yaml"], mode=r["mode"]), flow=f, reason="; ".join(probs[:3]),
+                               obligation="every statement comes after the partitioning statements that create the ranks it uses (independent reading of the dependences)"), True)
     for i in range(300 * k):
         f = flow.random_dag_case(rng)
         ctx.case([f["edges"], f["sorted0"]], nontrivial=f["sorted0"] != f["sorted1"])
